@@ -259,7 +259,79 @@ func targetedResponseVsTimeout(c *core.Ctx, rounds int, oracles oracleSet) {
 	_ = r.close()
 }
 
+// targetedMassTimeout: n transactions whose last deadline passes on the same collector tick; every single one gets its
+// timeout (or, for the retransmitting variant, its retransmission), none is forgotten.
+func targetedMassTimeout(c *core.Ctx, n int, retransmit bool) {
+	c.Eval(1)
+	o := rigOpts{noRetransmit: !retransmit, rto: time.Second}
+	r, err := newRig(o)
+	if err != nil {
+		c.Violate("newclient", "newclient", err.Error())
+
+		return
+	}
+	txs := make([]*tx, n)
+	for i := range txs {
+		id := seqTID(int8(i % 3))
+		id[3], id[4], id[5] = byte(i), byte(i>>8), 0x4D
+		txs[i] = r.newTx("Start", id, 20+4*(i%5))
+		if err := r.start(txs[i]); err != nil {
+			c.Violate("start-failed", "start-failed", err.Error())
+
+			return
+		}
+	}
+	fail := func(kind, msg string) {
+		c.Violate(kind, kind+":mass-timeout", map[string]interface{}{"transactions": n, "options": o.String(), "problem": msg, "ledger_tail": tailOf(r.describe(), 12)})
+	}
+	now := int64(0)
+	ticks := 1
+	if retransmit {
+		ticks = r.maxAttempts() + 1
+	}
+	for k := 1; k <= ticks; k++ {
+		now += int64(k+1) * int64(time.Second) // past the k-th deadline of every transaction
+		r.tickAt(now)
+		wantW := n * (1 + k)
+		if k == ticks {
+			wantW = n * ticks
+		}
+		if !retransmit {
+			wantW = n
+		}
+		if got := r.conn.NWrites(); got != wantW {
+			fail("write-count", fmt.Sprintf("after tick %d the connection has seen %d writes, the schedule of %d transactions says %d", k, got, n, wantW))
+
+			return
+		}
+		for _, t := range txs {
+			inv := t.invocations()
+			if k < ticks && len(inv) != 0 {
+				fail("termination", fmt.Sprintf("after tick %d transaction #%d has invocations %v", k, t.Seq, classesOf(inv)))
+
+				return
+			}
+			if k == ticks && (len(inv) != 1 || inv[0].Class != "timeout") {
+				fail("handler-never-invoked", fmt.Sprintf("after the tick past the last deadline transaction #%d has invocations %v; one timeout expected", t.Seq, classesOf(inv)))
+
+				return
+			}
+		}
+	}
+	_ = r.close()
+	for _, p := range r.judge(oracleSet{exactlyOnce: true, writes: true}, true) {
+		fail(p.Kind, p.Detail)
+
+		return
+	}
+	c.Count("targeted.mass_timeout_transactions", int64(n))
+}
+
 func c10Targeted(c *core.Ctx) {
+	c.Section("targeted-mass-timeout", 10, func(i int64, _ *gen.Rand) {
+		targetedMassTimeout(c, []int{99, 100, 101, 150, 250, 300, 1000, 101, 205, 330}[i], i >= 7)
+		c.Distinct(uint64(i) | 14<<50)
+	})
 	c.SectionSerial("targeted-close-from-handler", 6, func(i int64, _ *gen.Rand) {
 		targetedCloseFromHandler(c, int(i))
 		c.Distinct(uint64(i) | 12<<50)
@@ -395,7 +467,79 @@ func targetedNoConnCloseWaitsForReader(c *core.Ctx, defaultAgent bool) {
 	c.Count("targeted.noconnclose_waits_for_reader", 1)
 }
 
+// targetedCloseFromClosedHandler: transactions are in flight, Close is called, and the handler that is told "closed"
+// reacts the usual way - it calls client.Close() (and Start) itself. The nested calls return ErrClientClosed at once.
+func targetedCloseFromClosedHandler(c *core.Ctx, variant int) {
+	c.Eval(1)
+	o := rigOpts{noRetransmit: variant&1 == 1, defaultAgent: variant&2 != 0, noConnClose: variant&4 != 0, fallback: variant&8 != 0}
+	r, err := newRig(o)
+	if err != nil {
+		c.Violate("newclient", "newclient", err.Error())
+
+		return
+	}
+	var nestedClose, nestedStart, nestedIndicate atomic.Value
+	var nestedCalls int32
+	mk := func(id [12]byte) *tx {
+		t := r.newTx("Start", id, 24)
+		t.Raw = append([]byte(nil), t.msg.Raw...)
+		t.CallStamp = r.w.Tick()
+		h := r.handlerFor(t)
+		t.RetErr = r.client.Start(t.msg, func(e stun.Event) {
+			h(e)
+			if classifyEvent(e) != "closed" {
+				return
+			}
+			atomic.AddInt32(&nestedCalls, 1)
+			nestedClose.Store(fmt.Sprint(r.client.Close()))
+			nestedStart.Store(fmt.Sprint(r.client.Start(request(seqTID(2), 20, 1), func(stun.Event) {})))
+			nestedIndicate.Store(fmt.Sprint(r.client.Indicate(request(seqTID(2), 20, 2))))
+		})
+		t.RetStamp = r.w.Tick()
+		atomic.StoreInt32(&t.Returned, 1)
+
+		return t
+	}
+	a, b := mk(seqTID(0)), mk(seqTID(1))
+	done := make(chan error, 1)
+	go func() { done <- r.close() }()
+	select {
+	case err := <-done:
+		if msg := checkCloseResult(o, err); msg != "" {
+			c.Violate("close-result", "close-result", map[string]interface{}{"options": o.String(), "problem": msg})
+		}
+	case <-time.After(15 * time.Second):
+		c.Violate("stuck", "stuck:Close-from-closed-handler", map[string]interface{}{
+			"options": o.String(), "scenario": "two transactions in flight; Close; the handler receiving the closed event calls client.Close()", "goroutines_inside_the_library": agentFrames(allStacks()), "ledger": r.describe()})
+
+		return
+	}
+	want := stun.ErrClientClosed.Error()
+	for name, v := range map[string]*atomic.Value{"Close": &nestedClose, "Start": &nestedStart, "Indicate": &nestedIndicate} {
+		if got, _ := v.Load().(string); got != want {
+			c.Violate("call-after-close", "call-after-close:nested-"+name, map[string]interface{}{"options": o.String(), "problem": fmt.Sprintf("%s called from the closed-event handler returned %q, expected ErrClientClosed", name, got)})
+		}
+	}
+	for _, t := range []*tx{a, b} {
+		if inv := t.invocations(); t.RetErr == nil && (len(inv) != 1 || inv[0].Class != "closed") {
+			c.Violate("handler-never-invoked", "never-invoked:close-from-closed-handler", map[string]interface{}{"options": o.String(), "invocations": classesOf(inv)})
+		}
+	}
+	for _, p := range r.judge(c15Oracles, true) {
+		c.Violate(p.Kind, p.Key, map[string]interface{}{"options": o.String(), "problem": p.Detail})
+	}
+	for _, p := range r.closeAccounting() {
+		c.Violate(p.Kind, p.Key, map[string]interface{}{"options": o.String(), "problem": p.Detail})
+	}
+	c.Count("targeted.close_from_closed_handler", 1)
+	c.Count("targeted.nested_calls_from_closed_handlers", int64(atomic.LoadInt32(&nestedCalls)))
+}
+
 func c15Targeted(c *core.Ctx) {
+	c.SectionSerial("targeted-close-from-closed-handler", 16, func(i int64, _ *gen.Rand) {
+		targetedCloseFromClosedHandler(c, int(i))
+		c.Distinct(uint64(i) | 15<<50)
+	})
 	c.Section("targeted-simultaneous-close", 16, func(i int64, _ *gen.Rand) {
 		targetedSimultaneousClose(c, int(c.N(400, 6000)), rigOpts{noConnClose: i%2 == 1, defaultAgent: i/2%2 == 1})
 		c.Distinct(uint64(i) | 10<<50)
